@@ -46,7 +46,7 @@ func traps() []*Scenario {
 		{CN: 3, Src: "trap:deepsub", Steps: []Step{
 			reg(o1, "a.t", "o1", 8), add(o1, "b.a.t", "A", "1.1.1.1"), add(o1, "c.b.a.t", "A", "2.2.2.2"), add(o1, "c.b.a.t", "TXT", "x"),
 			set(o1, "c.b.a.t", "A", 0, "3.3.3.3"), reg(o1, "b.a.t", "o2", 8), del(o1, "c.b.a.t", "A"), del(o1, "c.b.a.t", "TXT"),
-			reg(s("o1", "o2"), "b.a.t", "o2", 2), add(o2, "c.b.a.t", "A", "2.2.2.2"), add(o2, "d.c.b.a.t", "TXT", "y"), tick(2),
+			reg(s("o1", "o2"), "b.a.t", "o2", 2), add(o2, "c.b.a.t", "A", "2.2.2.2"), add(o2, "d.c.b.a.t", "TXT", "y"), tick(9),
 			add(o1, "d.c.b.a.t", "TXT", "z"), reg(s("o1", "o3"), "b.a.t", "o3", 3)}},
 		// setRecord can store a value twice
 		{CN: 1, Src: "trap:setdup", Steps: []Step{
@@ -54,13 +54,21 @@ func traps() []*Scenario {
 			set(o1, "a.t", "TXT", 1, "z"), set(o1, "a.t", "TXT", 2, "w"), set(o1, "a.t", "TXT", 1, "x"), del(o1, "a.t", "TXT"),
 			add(o1, "a.t", "CNAME", "b.t"), add(o1, "a.t", "CNAME", "a.u"), set(o1, "a.t", "CNAME", 0, "a.u"), del(o1, "a.t", "SOA"),
 			add(o1, "a.t", "SOA", "x"), add(o1, "a.t", "BAD", "x"), del(o1, "a.t", "BAD")}},
-		// expiry boundary, takeover by another owner, renew bounds
+		// expiry boundary hit exactly (instants exp-1, exp, exp+1), takeover by another owner, renew bounds
 		{CN: 4, Src: "trap:expiry", Steps: []Step{
-			reg(o1, "a.t", "o1", 2), add(o1, "a.t", "A", "1.1.1.1"), setAdmin(s("o1", "o3"), "a.t", "o3"), tick(1), reg(o2, "a.t", "o2", 2),
-			tick(1), add(o1, "a.t", "A", "2.2.2.2"), renew(o1, "a.t", 1), xfer(o1, "a.t", "o2"), reg(o2, "a.t", "o2", 3),
-			add(o3, "a.t", "TXT", "x"), add(o2, "a.t", "TXT", "x"), renew(o2, "a.t", 9), renew(o2, "a.t", 1), renew(o2, "a.t", 10), renew(o2, "a.t", 11),
-			renew(o2, "a.t", 0), tick(3), reg(o2, "a.t", "o2", 1), tick(1), reg(o1, "a.t", "o1", 1), tick(1), reg(o1, "a.t", "o1", 2),
+			reg(o1, "a.t", "o1", 2) /* at 1, exp 9 */, add(o1, "a.t", "A", "1.1.1.1"), setAdmin(s("o1", "o3"), "a.t", "o3"), tick(3),
+			reg(o2, "a.t", "o2", 2) /* at 7: taken; reads at 8 = exp-1 */, add(o1, "a.t", "A", "2.2.2.2") /* at 8; reads at 9 = exp */,
+			renew(o1, "a.t", 1) /* at 9: expired */, xfer(o1, "a.t", "o2"), reg(o2, "a.t", "o2", 3) /* at 11: takeover, exp 23 */,
+			reg(o1, "b.t", "o1", 1) /* at 12, exp 16 */, tick(3), reg(o2, "b.t", "o2", 1) /* at 16 = exp: takeover, exp 20 */,
+			reg(o3, "b.t", "o3", 1) /* at 17 */, tick(1), reg(o3, "b.t", "o3", 1) /* at 19 = exp-1: taken */,
+			reg(o3, "b.t", "o3", 1) /* at 20 = exp */, add(o3, "a.t", "TXT", "x"), add(o2, "a.t", "TXT", "x"),
+			renew(o2, "a.t", 9) /* at 23?: see monitor */, renew(o2, "a.t", 1), renew(o2, "a.t", 10), renew(o2, "a.t", 11), renew(o2, "a.t", 0),
 			renew(cmt, "t", 10), renew(cmt, "t", 10), renew(o1, "t", 1)}},
+		// renew up to exactly ten years ahead
+		{CN: 1, Src: "trap:renewbound", Steps: []Step{
+			reg(o1, "a.t", "o1", 4) /* at 1, exp 17 */, renew(o1, "a.t", 9) /* at 2: 161 <= 162 */, renew(o1, "a.t", 1) /* at 3: 177 > 163 */,
+			tick(12), renew(o1, "a.t", 1) /* at 16: 177 > 176 */, renew(o1, "a.t", 1) /* at 17: 177 <= 177 */, renew(o1, "a.t", 1),
+			reg(o2, "b.t", "o2", 40) /* ten years at registration */, renew(o2, "b.t", 1), tick(16), renew(o2, "b.t", 1), renew(o2, "b.t", 1)}},
 		// CNAME chains of 1..4 links and a cycle
 		{CN: 7, Src: "trap:cname", Steps: []Step{
 			regTLD(cmt, "u", 40), reg(o1, "a.t", "o1", 8), reg(o1, "b.t", "o1", 8), reg(o1, "a.u", "o1", 8), reg(o1, "c.a.t", "o1", 8),
@@ -69,7 +77,7 @@ func traps() []*Scenario {
 			add(o1, "a.t", "A", "5.5.5.5"), add(o1, "a.t", "TXT", "x"),
 			add(o1, "c.a.t", "CNAME", "b.a.t"), add(o1, "a.u", "CNAME", "c.a.t"), add(o1, "b.t", "CNAME", "a.u"), add(o1, "a.t", "CNAME", "b.t"),
 			add(o1, "b.a.t", "CNAME", "a.t"), del(o1, "b.a.t", "CNAME"), add(o1, "b.a.t", "CNAME", "b.a.t"), del(o1, "c.a.t", "CNAME"),
-			add(o1, "c.a.t", "CNAME", "d.c.b.a.t"), tick(9)}},
+			add(o1, "c.a.t", "CNAME", "d.c.b.a.t"), tick(40)}},
 		// 16 values per list
 		func() *Scenario {
 			sc := &Scenario{CN: 1, Src: "trap:sixteen", Steps: []Step{reg(o1, "a.t", "o1", 8)}}
@@ -82,11 +90,11 @@ func traps() []*Scenario {
 		}(),
 		// a contract as owner and admin; the committee as owner; TLD expiry and re-registration
 		{CN: 3, Src: "trap:contract", Steps: []Step{
-			via(reg(s(), "a.t", "kc", 4)), reg(s(), "b.t", "kc", 4), via(add(s(), "a.t", "A", "1.1.1.1")), add(s("X"), "a.t", "A", "2.2.2.2"),
-			via(reg(s("o1"), "b.a.t", "o1", 4)), via(xfer(s(), "a.t", "o2")), via(add(s(), "a.t", "TXT", "x")), xfer(o2, "a.t", "kc"),
+			via(reg(s(), "a.t", "kc", 12)), reg(s(), "b.t", "kc", 4), via(add(s(), "a.t", "A", "1.1.1.1")), add(s("X"), "a.t", "A", "2.2.2.2"),
+			via(reg(s("o1"), "b.a.t", "o1", 12)), via(xfer(s(), "a.t", "o2")), via(add(s(), "a.t", "TXT", "x")), xfer(o2, "a.t", "kc"),
 			xfer(o2, "a.t", "o2"), via(setAdmin(s(), "a.t", "o1")), via(setAdmin(s("o1"), "a.t", "o1")), via(xfer(s(), "a.t", "kc")),
-			reg(cmt, "b.t", "CMT", 4), add(s("ALPHA"), "b.t", "TXT", "x"), add(s("M1"), "b.t", "TXT", "x"), add(cmt, "b.t", "TXT", "x"),
-			regTLD(s("ALPHA"), "u", 1), regTLD(cmt, "u", 1), regTLD(cmt, "u", 1), reg(o1, "a.u", "o1", 8), add(o1, "a.u", "A", "1.1.1.1"), tick(1),
+			reg(cmt, "b.t", "CMT", 12), add(s("ALPHA"), "b.t", "TXT", "x"), add(s("M1"), "b.t", "TXT", "x"), add(cmt, "b.t", "TXT", "x"),
+			regTLD(s("ALPHA"), "u", 2), regTLD(cmt, "u", 2), regTLD(cmt, "u", 2), reg(o1, "a.u", "o1", 8), add(o1, "a.u", "A", "1.1.1.1"), tick(8),
 			reg(o2, "a.u", "o2", 8), xfer(o1, "a.u", "o2"), regTLD(o1, "u", 3), regTLD(cmt, "u", 3), add(o1, "a.u", "A", "2.2.2.2"),
 			updSOA(o1, "a.u", "m2", 5), updSOA(o1, "u", "m2", 5), updSOA(cmt, "u", "m2", 5)}},
 		// former owner / former admin / parent owner after transfers
@@ -95,7 +103,7 @@ func traps() []*Scenario {
 			setAdmin(s("o2", "o3"), "b.a.t", "o3"), add(o3, "b.a.t", "A", "1.1.1.1"), add(o1, "b.a.t", "A", "2.2.2.2"),
 			reg(s("o3", "o1"), "c.b.a.t", "o1", 4), xfer(o3, "b.a.t", "o3"), xfer(o2, "b.a.t", "o1"), add(o3, "b.a.t", "A", "2.2.2.2"),
 			add(o2, "b.a.t", "A", "2.2.2.2"), renew(o2, "b.a.t", 1), updSOA(o3, "b.a.t", "m2", 3), del(o2, "b.a.t", "A"), setAdmin(o2, "b.a.t", "nil"),
-			setAdmin(o1, "b.a.t", "nil"), reg(s("o2"), "c.b.a.t", "o2", 4), tick(4), reg(s("o2"), "c.b.a.t", "o2", 4), reg(s("o1", "o2"), "c.b.a.t", "o2", 4),
+			setAdmin(o1, "b.a.t", "nil"), reg(s("o2"), "c.b.a.t", "o2", 4), tick(17), reg(s("o2"), "c.b.a.t", "o2", 4), reg(s("o1", "o2"), "c.b.a.t", "o2", 4),
 			xfer(o1, "c.b.a.t", "o3")}},
 	}
 }
@@ -188,12 +196,16 @@ func randScenario(r *rand.Rand) *Scenario {
 		return o, viaKC
 	}
 	nsteps := 12 + r.Intn(28)
+	now++ // the deployment block is instant 0
 	for i := 0; i < nsteps; i++ {
+		if i > 0 {
+			now++ // every step is one block
+		}
 		n := pick(ntNames)
 		switch k := r.Intn(30); {
 		case k < 3:
-			d := int64(1 + r.Intn(3))
-			now += d
+			d := int64(1 + r.Intn(9))
+			now += d - 1
 			sc.Steps = append(sc.Steps, tick(d))
 		case k < 4:
 			S := []string{"CMT"}
@@ -204,7 +216,7 @@ func randScenario(r *rand.Rand) *Scenario {
 			tld := pick([]string{"u", "u", "t"})
 			sc.Steps = append(sc.Steps, regTLD(S, tld, x))
 			if S[0] == "CMT" && !alive(tld) {
-				reg0[tld] = &st{"nil", "nil", now + x}
+				reg0[tld] = &st{"nil", "nil", now + x*B}
 			}
 		case k < 11:
 			o := pick([]string{"o1", "o1", "o2", "o2", "o3", "kc", "CMT"})
@@ -226,7 +238,7 @@ func randScenario(r *rand.Rand) *Scenario {
 				ok = ok && alive(m)
 			}
 			if ok {
-				reg0[n] = &st{o, "nil", now + x}
+				reg0[n] = &st{o, "nil", now + x*B}
 			}
 		case k < 14:
 			to := pick(owners)
